@@ -74,6 +74,14 @@ def noninvertible(rng, m):
 
 def exponent(rng, tier):
     c = rng.random()
+    if c < 0.05:
+        # 4..17 words: choose_pow_window_len picks 5 above ~240 bits and 6 above ~672 bits
+        b = rng.choice([241, 256, 257, 300, 512, 673, 700, 1030])
+        v = rng.getrandbits(b) | (1 << (b - 1))
+        if rng.random() < 0.3:
+            v &= ~((1 << rng.choice([64, 65, 127, 128, 130])) - 1)   # low word(s) zero: `word_idx == 0 => next_word = 0` with a run of zeros
+            v |= rng.choice([0, 1])
+        return v
     if c < 0.2:
         return rng.choice([0, 1, 2, 3, 4, 5, 7, 8, 15, 16, 17])
     if c < 0.45:
@@ -115,7 +123,7 @@ def half_length_cases(rng, tier):
                 v = (1 << b) - rng.choice([2, 12345, rng.getrandbits(32) + 1, (1 << 64) + 1])
             elif r < 0.65:
                 v = (1 << (b - 1)) + rng.getrandbits(20)
-            elif r < 0.75:
+            elif r < 0.85:
                 # just around sqrt(m): the square / product straddles the modulus
                 from math import isqrt
                 v = isqrt(m) + rng.choice([-1, 0, 1, 2, rng.getrandbits(10)])
@@ -126,6 +134,8 @@ def half_length_cases(rng, tier):
         na = rng.choice([h, h, h, h - 1, h + 1, (n + 1) // 2])
         nb = rng.choice([na, n - na, n - na, n - na - 1, n - na + 1, h])
         a, b = opnd(na), opnd(nb)
+        if rng.random() < 0.25 and a > 1:
+            b = (m // a + rng.choice([0, 1, 1, 2])) % m          # a*b lands in [m - a, m + 2a): one conditional subtraction or none
         if rng.random() < 0.3:
             a = -a
         r = rng.random()
@@ -141,6 +151,65 @@ def half_length_cases(rng, tier):
             yield Case("r.sqr", [hx(m), hx(abs(a))])
         else:
             yield Case("r.mul", [hx(m), hx(abs(a)), hx(abs(b))])
+
+def kernel_cases(rng, tier):
+    """The word loops behind `reduce` in single- and double-word rings (div_const.rs rem_word / rem_dword /
+    rem_large, div/mod.rs fast_rem_by_normalized_word / _dword): moduli of 1..64 and 65..128 bits (shift 0 and
+    1..63; all-ones, 100..0 = the smallest normalised divisor, random) x operands of exactly 1..9, 16, 17, 70,
+    71 words (even and odd counts: the dword loop ends in pairs only or in a `div_rem_3by2` tail) that are
+    all-ones, q*m + {0, 1, m-2, m-1} (remainders 0 and maximal at every step), powers of two, structured
+    patterns, random; high word below / at / above the divisor (the `div_rem_1by1` / `div_rem_2by2`
+    compare-and-subtract), both signs; through reduce, Reducer::transform, eq, and as operands of + * inv pow."""
+    cnt = 260 if tier == "quick" else 9000
+    for _ in range(cnt):
+        if rng.random() < 0.5:
+            k = rng.choice([64, 64, 64, 63, 62, 33, 32, 31, 8, 2, 1])
+            lo = 1
+        else:
+            k = rng.choice([128, 128, 128, 127, 126, 97, 96, 95, 66, 65])
+            lo = 1 << 64
+        m = rng.getrandbits(k) | (1 << (k - 1))
+        r = rng.random()
+        if r < 0.15:
+            m = (1 << k) - rng.choice([1, 3, 59])
+        elif r < 0.3:
+            m = (1 << (k - 1)) + rng.choice([0, 0, 1, 2])
+        m = max(m, lo)
+        M = m << ((64 if lo == 1 else 128) - m.bit_length())       # the normalised divisor
+        words = rng.choice([1, 2, 2, 3, 3, 4, 4, 5, 5, 6, 7, 8, 9, 16, 17, 70, 71])
+        bits = words * 64
+        c = rng.random()
+        if c < 0.15:
+            v = (1 << bits) - 1
+        elif c < 0.35:
+            q = rng.getrandbits(max(bits - m.bit_length(), 1))
+            v = q * m + rng.choice([0, 1, m - 2, m - 1])
+        elif c < 0.45:
+            # top word(s) exactly the normalised divisor -1 / +0 / +1: the compare-and-subtract of the first step
+            top = (M + rng.choice([-1, 0, 1])) & ((1 << (64 if lo == 1 else 128)) - 1)
+            low = max(bits - (64 if lo == 1 else 128), 0)
+            v = (top << low) | (rng.getrandbits(low) if low else 0)
+        elif c < 0.55:
+            v = nat_pattern(rng, words, rng.choice(PATTERNS))
+        elif c < 0.62:
+            v = 1 << (bits - 1)
+        else:
+            v = rng.getrandbits(bits) | (1 << (bits - 1))
+        v = max(v, 0)
+        a = -v if rng.random() < 0.3 else v
+        r = rng.random()
+        if r < 0.45:
+            yield Case("m.reduce", [hx(m), hx(a)])
+        elif r < 0.55:
+            yield Case("r.transform", [hx(m), hx(v)])
+        elif r < 0.65:
+            yield Case("m.eq", [hx(m), hx(a), hx(a + m * rng.choice([0, 1, -1, 1 << 70, 3]) + rng.choice([0, 0, 1]))])
+        elif r < 0.8:
+            yield Case("m." + rng.choice(["add", "sub", "mul"]), [hx(m), hx(a), hx(operand(rng, m, tier))])
+        elif r < 0.9:
+            yield Case("m." + rng.choice(["inv", "sqr", "neg", "dbl"]), [hx(m), hx(a)])
+        else:
+            yield Case("m.pow", [hx(m), hx(a), hx(exponent(rng, tier))])
 
 def coprime_to(rng, bits, other):
     import math
@@ -232,6 +301,8 @@ def generate(rng, tier):
         yield c
     for c in conjunct_cases(rng, tier):
         yield c
+    for c in kernel_cases(rng, tier):
+        yield c
     n = 2200 if tier == "quick" else 60000
     for i in range(n):
         m = modulus(rng, tier)
@@ -280,6 +351,12 @@ def generate(rng, tier):
         else:
             op = rng.choice(["transform", "add", "sub", "mul", "neg", "dbl", "sqr", "inv", "pow", "iszero"])
             a, b = abs(a), abs(b)
+            if m.bit_length() > 128 and rng.random() < 0.3:
+                # multi-word ring, operands / differences that stay within two words (reducer.rs: the TypedRepr::Small arms of
+                # reduce_negate / check / residue, `sub_large_dword`)
+                a = rng.getrandbits(rng.choice([1, 8, 63, 64, 65, 100, 127]))
+                b = a + rng.choice([0, 1, -1, rng.getrandbits(20)]) if rng.random() < 0.5 else rng.getrandbits(rng.choice([1, 64, 120]))
+                b = max(b, 0)
             if op in ("add", "sub", "mul"):
                 if op == "add" and rng.random() < 0.25 and m > 1:
                     b = m - (a % m)                              # sum exactly m
@@ -294,46 +371,70 @@ def generate(rng, tier):
                     a = m // 2                                   # double exactly m
                 yield Case("r." + op, [hx(m), hx(a)])
 
+USES_GEN = True          # lean/Dashu/Gen/Modular.lean: decision logic of integer/src/modular/{mul,pow,div}.rs (vlib/extract.py gen_modular)
 REFINED = ["ConstDivisor::new (shift)", "ConstSingleDivisor::rem_word/rem_dword/rem_large", "ConstDoubleDivisor::rem_dword/rem_large",
            "ConstLargeDivisor::rem_repr/rem_large", "IntoRing for UBig/IBig", "Reduced::residue/modulus",
            "Neg/Add/Sub/Mul/Div for Reduced", "Reduced::dbl/sqr/inv/pow", "mul_normalized/sqr_normalized",
            "single::pow/double::pow (pow_word, pow_helper)", "large::pow / pow_nontrivial (windowed exponentiation, odd-power table, choose_pow_window_len)",
            "num-modular invm (mirrored extended Euclid)",
-           "Reducer<UBig> for ConstDivisor: transform/check/add/dbl/sub/neg"]
-FRONTIER = ["num_modular div_rem_2by1 / div_rem_4by2 at the mul/sqr/rem_word call sites of single- and double-word rings: DISCHARGED against "
-            "C02's mirrored Moeller-Granlund algorithms (preconditions proved, single_word_/double_word_division_contracts); the "
-            "remaining uses (rem_dword's two-step reduction, div_rem_3by2, fast_rem_by_normalized_(d)word, multi-word div_rem_in_place) "
-            "are modelled as exact % — their exactness is C02's div_by_word/dword_exact, burnikel_ziegler_exact, nm_div_rem_3by2_exact",
+           "Reducer<UBig> for ConstDivisor: transform/check/add/dbl/sub/neg",
+           "round 4, executed by the driver in place of `%`: div_const.rs rem_word / two-step rem_dword (shl_dword, div_rem_1by1, div_rem_2by1 twice) / "
+           "rem_large of single- and double-word rings; div/mod.rs fast_rem_by_normalized_word and fast_rem_by_normalized_dword (word loops; "
+           "div_rem_2by2 / 4by2 pairs / 3by2 tail) over C02's mirrored Moeller-Granlund dividers, proved = % for every number of words "
+           "(fast_rem_by_normalized_word, fast_rem_by_normalized_dword, reduce_kernels)",
+           "round 4: PreMulInv2by1::mul/sqr, PreMulInv3by2::mul/sqr through the mirrored div_rem_2by1 / div_rem_4by2, executed for * , sqr and every step of pow_word / pow_helper (mul_sqr_kernels, pow_kernels)",
+           "round 4: modular/div.rs inv_large mirrored (shr, raw_len dispatch, gcd_ext_word/_dword = C12's gcdExtSmall, gcd_ext_in_place = C12's "
+           "lehmerExt, shl, negate) and executed; the range claim |b| < modulus (debug_assert!(inv.is_valid(ring))) is a theorem for all three "
+           "kernels (inv_large_range: continuant identity t0*y + t1*x = lhs as a second invariant of Lehmer's extended loop, half-size cofactor "
+           "bounds of the primitive and the two-width Euclid loops), so inv_large = the specified inverse is a corollary of C12's "
+           "lehmer_gcd_ext_correct / gcdExtSmall_spec (inv_large_mirror, inv_div_kernels)",
+           "round 4, Tie A (Gen/Modular.lean regenerated from integer/src/modular/{mul,pow,div}.rs): the long-division tests of mul_/sqr_normalized, "
+           "cost model / loop guard / stop test / start value of choose_pow_window_len, the `match raw_len` dispatch and the gcd-is-one test of inv_large "
+           "— the model is proved equal to the regenerated definitions"]
+FRONTIER = ["multi-word div_rem_in_place (ConstLargeDivisor::rem_large, mul_normalized/sqr_normalized when na + nb > n) is modelled as exact % — "
+            "its exactness is C02's burnikel_ziegler_exact / div_by_word/dword_exact",
             "mul::multiply / sqr::sqr on word slices: modelled as exact * (refined in C01)",
-            "inv_large: gcd::gcd_ext_word/_dword/_in_place (Lehmer) specified by the mirrored invm (the inverse is unique mod m). The kernels "
-            "themselves are now mirrored and proved in C12 (gcd_ext_spec, lehmer_gcd_ext_correct: g = gcd and modulus | g - raw*b); what keeps "
-            "inv_large from being a corollary is the range claim |b| < modulus (the debug_assert!(inv.is_valid(ring))), not yet a theorem"]
+            "num-modular's invm for single- and double-word rings is mirrored on Nat (extended Euclid reduced mod m at every step); its u64/u128 "
+            "wrapping arithmetic is not modelled at the word level"]
 RULE = ("moduli from {1, 2^k, odd/even single word, double word with/without normalisation shift, 3..70 words with aligned/unaligned "
         "top word, all-ones / 100..0 / low-words-zero patterns} x operands of any sign and size (reduced, multiples of m, m+-1, "
-        "size-class boundaries, up to 140 words) x exponents 0..3 words incl. long zero runs x ops {reduce, + - * / neg dbl sqr pow inv eq, "
+        "size-class boundaries, up to 140 words) x exponents 0..3 words incl. long zero runs, plus 4..17-word exponents (window lengths 5 and 6) x ops {reduce, + - * / neg dbl sqr pow inv eq, "
         "mixing two ConstDivisor instances, the num_modular::Reducer impl}; a dedicated stream for the no-division branch of mul/sqr_normalized "
+        "(incl. products landing just below / above m); "
+        "a stream for the word loops behind reduce in single- and double-word rings (moduli of 1..64 / 65..128 bits with shift 0 and 1..63, all-ones and smallest "
+        "normalised divisors x operands of exactly 1..9, 16, 17, 70, 71 words, even and odd counts, all-ones / q*m + {0,1,m-2,m-1} / top words = divisor-1,+0,+1 / "
+        "powers of two / patterns, both signs); "
         "a stream for conjunctive tests (`len == 1 && word == 1` style) with exactly one conjunct true: inv/div/Reducer::inv with m = g*m', a = g*a', "
         "gcd(a', m') = 1 and g multi-word with lowest word 1 (2^64+1, 3*2^64+1, 2^128+1, k*2^64+1, three words; the 2^32 analogues) or one word != 1, "
         "m of 3..17 words, residues of 1/2/>=3 words before and after removing the normalisation shift; mul/sqr with operand word counts (0,k),(1,1),(1,k),(k,1); "
         "negation of residues whose low words are zero; "
         "(moduli of exactly 2..16 words with 0..63 leading zero bits x operands of exactly n/2, n/2+-1 words, all-ones / 2^k-small / "
         "around sqrt(m), through sqr, mul (equal and different operands), pow with small exponents); non-invertible elements by construction (multiples of a "
-        "factor of m); sums/doubles that hit exactly m. Non-trivial := modulus above one word; distinct := distinct (op,args) lines.")
+        "factor of m); sums/doubles that hit exactly m. The model driver annotates every case with the branch of the mirrored code it takes (reduce: ring kind x "
+        "operand size class x shift x sign; mul/sqr: division / conditional subtraction / none; inv: raw_len arm x gcd class; pow: window length / exponent words; "
+        "add/sub: carry / borrow) — histogram under coverage.annotations in the evidence file. Non-trivial := modulus above one word; distinct := distinct (op,args) lines.")
 EXPLANATION = ("Lean theorems (all W, all moduli, all integers): reduce yields a Valid pre-shifted residue equal to a mod m; + - * neg dbl "
                "sqr preserve Valid and commute with residue; pow = a^e mod m for every e in every ring (square-and-multiply over words; windowed loop for multi-word rings); inv = Some x iff gcd(a,m)=1 "
-               "and then a*x = 1; division; different rings panic. Division primitives of num-modular are contract parameters.")
-ASSUMPTIONS = ["num_modular div_rem_* primitives and dashu's div_rem_in_place/fast_rem_by_normalized_* satisfy their floor-division contract",
-               "mul::multiply/sqr::sqr are exact (C01)"]
+               "and then a*x = 1; division; different rings panic. The driver executes the mirrored word-level kernels (rem_word/rem_dword/rem_large, "
+               "fast_rem_by_normalized_(d)word, PreMulInv*::mul/sqr, inv_large through C12's extended-gcd kernels), each proved equal to the definition the "
+               "homomorphism theorems are about; inv_large's range claim |b| < modulus is a theorem.")
+ASSUMPTIONS = ["dashu's multi-word div_rem_in_place satisfies its floor-division contract (C02)",
+               "mul::multiply/sqr::sqr are exact (C01)",
+               "usize has 64 bits in choose_pow_window_len's loop guard (WORD_BITS.min(usize::BIT_SIZE))"]
 LEVEL_TEXT = ("Machine-checked Lean 4 theorems over an executable model that mirrors the pre-shifted residue representation of "
               "ConstDivisor/Reduced (single, double and multi-word rings): for every word size, modulus m >= 1 and all integers, "
               "reduce/+/-/*/neg/dbl/sqr/pow (incl. the windowed multi-word loop)/inv/div are the homomorphic image of integer arithmetic with residues in [0,m), inverse "
-              "exists iff coprime, mixing rings panics. The model is tied to /repo on every run by differential execution against "
-              "ConstDivisor::reduce, all Reduced operator call forms and the num_modular::Reducer impl.")
+              "exists iff coprime, mixing rings panics. The word-level kernels of reduce (two-step rem_dword, fast_rem_by_normalized_word/_dword), of the single- and "
+              "double-word products and inv_large (C12's mirrored gcd_ext kernels, range claim |b| < modulus proved) are mirrored, executed and proved equal to the "
+              "arithmetic definitions; decision logic of mul/pow/div is regenerated from source and proved equal to the model's. The model is tied to /repo on every "
+              "run by differential execution against ConstDivisor::reduce, all Reduced operator call forms and the num_modular::Reducer impl.")
 LEVEL_NOTE = ("Trusted: Lean kernel; axioms propext/Classical.choice/Quot.sound; correspondence harness + generators (sampling) for the tie "
-              "model<->code; num-modular's division primitives and dashu's multi-word multiply/divide kernels at their exact contracts "
-              "(% and *); the Lehmer-based inverse of multi-word rings is specified by the mirrored extended Euclid (the inverse is unique).")
-TECHNIQUE = "Lean 4 refinement proofs (value-level model of the pre-shifted residue representation) + differential correspondence model vs real code"
+              "model<->code; dashu's multi-word multiply/divide kernels at their exact contracts (% and *, C01/C02); the regeneration script vlib/extract.py "
+              "for the Tie-A definitions.")
+TECHNIQUE = "Lean 4 refinement proofs (value-level model of the pre-shifted residue representation, word-level mirrors of the division/gcd kernels) + regeneration of decision logic from source + differential correspondence model vs real code"
 THEOREMS = ["Dashu.Props.C13." + t for t in ["new_spec", "reduce_spec", "ops_closed", "hom_add", "hom_sub", "hom_mul", "hom_neg", "hom_dbl",
             "hom_sqr", "hom_pow", "inv_spec", "div_spec", "different_rings",
-            "different_instances_same_modulus", "single_word_division_contracts", "double_word_division_contracts", "reducer_ops", "one_asIs_counterexample", "reducer_add_asIs_counterexample"]]
+            "different_instances_same_modulus", "single_word_division_contracts", "double_word_division_contracts", "reducer_ops", "one_asIs_counterexample", "reducer_add_asIs_counterexample",
+            "fast_rem_by_normalized_word", "fast_rem_by_normalized_dword", "eq_spec", "reduce_kernels", "mul_sqr_kernels", "pow_kernels", "inv_large_range", "inv_large_mirror", "inv_div_kernels",
+            "mul_normalized_guard_gen", "choose_pow_window_len_gen", "inv_large_dispatch_gen", "inv_large_gcd_is_one_gen"]]
 READY = True
